@@ -45,4 +45,7 @@ def run(tier, seed):
     chk.min_obligations = 60
     chk.standin_on_out_of_reach("native router enumeration", "router.enumerate", {}, always=True,
                                 bound_text="every message tag x sender (absent, unregistered, each client, each device) x 0-2 devices (accepting or not) x 0-2 clients with every BLOB policy")
+    chk.standin_on_out_of_reach("native router histories", "router.history", {"seed": seed, "n": 300 if tier == "quick" else 3000}, always=True,
+                                bound_text="random histories (register / unregister / re-register / enableBLOB / device messages incl. name-less delProperty / client messages) of 3 clients x "
+                                           "2 devices on the real router against a reference model of the policy table")
     return chk.finish()
